@@ -153,6 +153,15 @@ def scan(ctx, program, jsx_spans=()):
                 if isinstance(s, SStr):
                     if len(s.cs) == 0:
                         conds.append(('identifier is not empty', False, {'ident': ''}))
+                    elif v.ty == 'Ident':
+                        # an identifier reference (e.g. the factory a pragma names) prints as written: it must be an IdentifierName
+                        if s.is_concrete():
+                            # (swc prints the name as written, so a dotted path `a.b` is still a valid expression)
+                            ok = all(seg and not seg[0].isdigit() and all(c.isalnum() or c in '_$' or ord(c) > 127 for c in seg) for seg in s.py().split('.'))
+                        else:
+                            ok = ident_name_ok(ctx, s)
+                        if ok is not True:
+                            conds.append(('an identifier reference is an IdentifierName', ok, {'key': s}))
             if v.ty == 'Str' and v.names and 'raw' in v.names:
                 sp = v.get('span')
                 if (sp.fields[0], sp.fields[1]) in jsx_spans and (sp.fields[0], sp.fields[1]) != (0, 0):
@@ -216,7 +225,7 @@ def jobs(tier):
             out.append({'form': f})
     for m in MODULES:
         out.append({'module': m})
-    for pc in ('@jsx h extra words', '@jsxFrag F', '@jsx', '@jsx a.b', '@jsx 1x'):
+    for pc in ('@jsx h extra words', '@jsxFrag F', '@jsx', '@jsx a.b', '@jsx 1x', '@jsx h -- why', '* @jsx h\n * more'):
         out.append({'form': 'key-hyphen', 'pragma_comment': pc})
     return [{'module': MOD, 'spec': s} for s in out]
 
@@ -226,6 +235,10 @@ def classify(v, detail):
         return 'panic:' + v['skeleton'].split('#')[1].split('|')[0]
     form = v['skeleton'].split('#')[1].split('|')[0]
     info = (detail or {}).get('info') or v.get('info') or {}
+    pc = v['skeleton'].split('#')[1].split('|')
+    if len(pc) >= 3 and pc[2].strip():
+        # keyed by the annotation text itself: another annotation that goes wrong is another violation
+        return 'pragma-comment-factory-printed-as-written:' + pc[2].strip().replace(' ', '_')
     groups = {'attr-element': 'jsx-element-or-fragment-as-attribute-value-is-left-as-jsx', 'attr-fragment': 'jsx-element-or-fragment-as-attribute-value-is-left-as-jsx',
               'attr-element-comp': 'jsx-element-or-fragment-as-attribute-value-is-left-as-jsx', 'attr-nested': 'jsx-element-or-fragment-as-attribute-value-is-left-as-jsx',
               'vslots-el': 'jsx-element-or-fragment-as-attribute-value-is-left-as-jsx',
